@@ -46,6 +46,8 @@ def shards(tier):
     out.append(dict(fam="v"))
     out += [dict(fam="vi", k=k) for k in range(4)]
     out += [dict(fam="vii", k=k) for k in range(16)]
+    out += [dict(fam="viii", k=k) for k in range(4)]
+    out += [dict(fam="ix", k=k) for k in range(8)]
     return out
 
 
@@ -533,8 +535,74 @@ def fam_vii(k, tier, acc):
     acc.sample(dict(fam="vii", k=k, blockers=len(pats)))
 
 
+def fam_viii(k, tier, acc):
+    """Every target length: orthogonal full-mask tables over 3 key bits with
+    at most 4 entries (4 entry kinds) x every target 0..len+1 x every
+    function - the failure report and the target test at every position of
+    the removable entries."""
+    kinds = [None, "dflt", "unk", "core"]
+    m = mask_of(0, B3) | 0x7
+    i = -1
+    for ks in itertools.product(range(4), repeat=8):
+        if sum(1 for x in ks if x) > 4 or not any(ks):
+            continue
+        i += 1
+        if i % 4 != k:
+            continue
+        table = [[KINDS[kinds[x]][0], key, m, KINDS[kinds[x]][1]]
+                 for key, x in enumerate(ks) if x]
+        acc.nontrivial += 1
+        judge_table(table, B3, tier, acc, "viii",
+                    targets=[None] + list(range(len(table) + 2)),
+                    remin=False)
+    acc.sample(dict(fam="viii", k=k))
+
+
+def fam_ix(k, tier, acc):
+    """Total functions on 4-bit keys: one half-space entry (XX1X -> N) below
+    exact entries for the other eight keys with every assignment of three
+    routes (3^8); the same with two exact keys of other routes sitting above
+    the half-space entry inside it.  Several route groups compete for merges
+    and every merge has the general entry below it."""
+    m = 0xffffffff
+    R = [[N], [E], [CORE1]]
+    keys0 = [key for key in range(16) if not key & 2]
+    general = [R[0], 2, mask_of(0, 4) | 2, [W]]
+    i = -1
+    for routes in itertools.product(range(3), repeat=8):
+        i += 1
+        if i % 8 != k:
+            continue
+        base = [[R[r], key, m, [W]] for key, r in zip(keys0, routes)]
+        for inside in ([], [[R[1], 3, m, [W]], [R[2], 6, m, [W]]]):
+            table = base + inside + [general]
+            acc.evaluations += 1
+            acc.nontrivial += 1
+            case = dict(fam="ix", table=table, nbits=4, fn="oc", target=None)
+            r = call("oc", table, None)
+            if r[0] == "exc":
+                acc.violation(dict(kind="exception", fn="oc", empty=False),
+                              case, r[1], size=len(table))
+            elif r[0] == "ok":
+                msg = compare(table, r[1], 4)
+                if msg:
+                    acc.violation(dict(kind="routing_changed", fn="oc"), case,
+                                  "oc of %s: %s" % ([fmt(e) for e in table],
+                                                    msg), size=len(table))
+                elif len(r[1]) > len(table):
+                    acc.violation(dict(kind="grew", fn="oc"), case,
+                                  "result longer than input", size=len(table))
+    acc.sample(dict(fam="ix", k=k))
+
+
 def run_shard(params, tier, acc):
     f = params["fam"]
+    if f == "ix":
+        fam_ix(params["k"], tier, acc)
+        return
+    if f == "viii":
+        fam_viii(params["k"], tier, acc)
+        return
     if f == "vii":
         fam_vii(params["k"], tier, acc)
         return
